@@ -35,7 +35,7 @@
 (***************************************************************************)
 EXTENDS Integers, Sequences, FiniteSets, TLC
 
-CONSTANTS CmdSz, W, MaxLeader, MaxFaults,
+CONSTANTS CmdSz, W, MaxLeader, MaxFaults, ClearsAtStep,
           SmallNoCheck, ZeroNoReset, IntactShortcut,
           MaxRefollow,     \* how often the follower is re-pointed to the other leader
           StaleCheck,      \* "percmd" (as coded) | "atread"
@@ -83,10 +83,16 @@ Init == /\ llog \in Seqs(MaxLeader)
         /\ hist = <<>>
         /\ olog = OLog /\ stale = NoStale /\ refollows = 0 /\ frozen = Live
 
+\* ClearsAtStep (as coded TRUE): every connect cycle starts by clearing the caught-up flag (followStep, under the lock,
+\* before the log is checked or reset).  The specification clears it at the instant the session ends (nobody can tell:
+\* until the next cycle starts the dataset is what it was when the flag was set).  FALSE: the flag is cleared only when a
+\* cycle ends with an error other than a clean close by the leader - after AOFSHRINK on the leader or a cut connection
+\* the follower keeps reporting caught-up while it resets and re-copies (NoEarlyCaughtUp refuted)
+Cleared == IF ClearsAtStep THEN FALSE ELSE caughtUp
 FullReset == /\ flog' = <<>> /\ fmem' = 0 /\ faofsz' = 0
 CheckSome ==
   /\ conn = "down"
-  /\ lsizeAtConnect' = Sz(llog) /\ caughtUp' = FALSE /\ sent' = 0 /\ conn' = "checked"
+  /\ lsizeAtConnect' = Sz(llog) /\ caughtUp' = Cleared /\ sent' = 0 /\ conn' = "checked"
   /\ IF faofsz < W
      THEN IF SmallNoCheck THEN pos' = 0 /\ UNCHANGED <<flog, fmem, faofsz>>
           ELSE pos' = 0 /\ FullReset                 \* intended: a short log is not verified, it is discarded
@@ -118,7 +124,7 @@ LWrite(c) == /\ Len(llog) < MaxLeader /\ KeepsDivergenceMonotone(c) /\ llog' = A
              /\ hist' = Append(hist, "lwrite")
              /\ UNCHANGED <<flog, fmem, faofsz, conn, pos, sent, lsizeAtConnect, caughtUp, faults, meta, re, frozen>>
 ConnDrop == /\ conn # "down" /\ faults < MaxFaults /\ faults' = faults + 1
-            /\ conn' = "down" /\ caughtUp' = FALSE /\ hist' = Append(hist, "drop") /\ frozen' = Live
+            /\ conn' = "down" /\ caughtUp' = Cleared /\ hist' = Append(hist, "drop") /\ frozen' = Live
             /\ UNCHANGED <<llog, flog, fmem, faofsz, pos, sent, lsizeAtConnect, meta, re>>
 FRestart == /\ faults < MaxFaults /\ faults' = faults + 1 /\ conn' = "down" /\ caughtUp' = FALSE
             /\ fmem' = Replay(0, flog) /\ faofsz' = Sz(flog) /\ hist' = Append(hist, "frestart")
@@ -131,7 +137,7 @@ LShrink == /\ faults < MaxFaults /\ faults' = faults + 1 /\ Len(llog) > 1
            /\ llog' = <<100 + Replay(0, llog)>>
            /\ IF MidCopy /\ ~ShrinkCutsCopying
               THEN /\ frozen' = [on |-> TRUE, log |-> llog] /\ UNCHANGED <<conn, caughtUp>>      \* keeps reading the old file
-              ELSE /\ conn' = "down" /\ caughtUp' = FALSE /\ frozen' = Live
+              ELSE /\ conn' = "down" /\ caughtUp' = Cleared /\ frozen' = Live
            /\ hist' = Append(hist, IF MidCopy THEN "lshrinkmid" ELSE "lshrink")
            /\ UNCHANGED <<flog, fmem, faofsz, pos, sent, lsizeAtConnect, meta, re>>
 \* FOLLOW otherhost (cmdFollow: followc + 1, a new session is started; the old one is not told)
